@@ -1,5 +1,434 @@
-//! (stub)
+//! C12 — fixed-size hint, reset and the generator's error contract.
+//!
+//! Explicit-state search on (real `Generator`, reference {bytes fed, declared
+//! size}).  Actions: declare a size (u64 and usize forms), feed the next chunk
+//! of a script, in-place zero skip (hook H1, to reach 96 / 192 GiB), reset and
+//! start another script.  In every state all finalisations are compared with
+//! the declarative reference under the declared-size model; after `reset()` the
+//! reference is *fresh*, so every later history is a differential between "the
+//! state reached from elsewhere" and "the initial state".
+
 use crate::common::*;
-use serde_json::Value;
-pub fn replay(_c: &Value) -> Result<(), String> { Err("not implemented".into()) }
-pub fn run(_ctx: &Ctx) -> Report { Report::new("model_checking") }
+use crate::corpus;
+use crate::explore;
+use crate::gen_util::*;
+use refmodel::ctph::Ctph;
+use serde_json::{json, Value};
+use ssdeep::{Generator, GeneratorError};
+use stateright::{Model, Property};
+use std::hash::{Hash, Hasher};
+use std::sync::atomic::{AtomicU64, Ordering as AO};
+use std::sync::Arc;
+
+const MAX: u64 = 192u64 << 30;
+
+#[derive(Clone, Debug)]
+pub struct Script {
+    pub name: &'static str,
+    pub zero_prefix: u64,
+    pub bytes: Vec<u8>,
+}
+
+pub fn scripts(thorough: bool) -> Vec<Script> {
+    let mut last = corpus::repeat(&corpus::W30B, 64);
+    last.push(1);
+    let mut v = vec![
+        Script { name: "hello", zero_prefix: 0, bytes: b"Hello, World!\n".to_vec() },
+        Script { name: "W2^70 (elimination)", zero_prefix: 0, bytes: corpus::repeat(&corpus::W[2], 70) },
+        Script { name: "96GiB-448 + W30^64 + 01 (last-piece hash)", zero_prefix: (96u64 << 30) - 448, bytes: last },
+        Script { name: "192GiB-448 + W30^64 (exactly the limit)", zero_prefix: MAX - 448, bytes: corpus::repeat(&corpus::W[30], 64) },
+        Script { name: "border 192*2^5 crossing", zero_prefix: (192u64 << 5) - 230, bytes: corpus::repeat(&corpus::W[5], 66) },
+    ];
+    if thorough {
+        v.push(Script { name: "192GiB-447 + W30^64 (one over the limit)", zero_prefix: MAX - 447, bytes: corpus::repeat(&corpus::W[30], 64) });
+        v.push(Script { name: "48GiB border + W29^65", zero_prefix: (48u64 << 30) - 200, bytes: corpus::repeat(&corpus::W[29], 65) });
+        v.push(Script { name: "W0^200 W7^40", zero_prefix: 0, bytes: { let mut b = corpus::repeat(&corpus::W[0], 200); b.extend(corpus::repeat(&corpus::W[7], 40)); b } });
+    }
+    v
+}
+
+#[derive(Clone, Copy, Debug, PartialEq, Eq, Hash)]
+pub enum Act {
+    /// declare size #k of the menu; `usize_form` uses set_fixed_input_size_in_usize
+    Declare(u8, bool),
+    /// in-place zero skip to the script's zero prefix (only as the first step of a segment)
+    Skip,
+    /// feed the next chunk (of 3) of the current script
+    Feed,
+    /// reset and continue with script #k
+    Reset(u8),
+}
+
+#[derive(Clone, Debug)]
+pub struct St {
+    g: Generator,
+    r: Ctph,
+    declared: Option<u64>,
+    script: usize,
+    skipped: bool,
+    chunk: usize, // chunks fed (0..=3)
+    resets: usize,
+    bad: Option<String>,
+    key: Arc<String>,
+}
+impl St {
+    fn rekey(mut self) -> Self {
+        // the reference state is a function of (script, skipped, chunk) since the last reset,
+        // all of which are in the key, so it need not be rendered
+        self.key = Arc::new(format!(
+            "{:?}|{:?}|{}|{}|{}|{}|{}",
+            self.g,
+            self.declared,
+            self.script,
+            self.skipped,
+            self.chunk,
+            self.resets,
+            self.bad.is_some()
+        ));
+        self
+    }
+}
+impl PartialEq for St {
+    fn eq(&self, o: &Self) -> bool {
+        self.key == o.key
+    }
+}
+impl Eq for St {}
+impl Hash for St {
+    fn hash<H: Hasher>(&self, h: &mut H) {
+        self.key.hash(h)
+    }
+}
+
+pub struct HintModel {
+    pub scripts: Vec<Script>,
+    pub max_resets: usize,
+    pub first_scripts: Vec<usize>,
+    pub counter: Arc<AtomicU64>,
+}
+
+fn total(s: &Script) -> u64 {
+    s.zero_prefix + s.bytes.len() as u64
+}
+
+fn size_menu(s: &Script) -> Vec<u64> {
+    let t = total(s);
+    vec![0, t.saturating_sub(1), t, t + 1, MAX, MAX + 1, u64::MAX]
+}
+
+/// Observables under the declared-size model.
+fn judge(st: &St) -> Result<(), String> {
+    if let Some(b) = &st.bad {
+        return Err(b.clone());
+    }
+    let before = format!("{:?}", st.g);
+    let obs = observe(&st.g).map_err(|p| format!("panic in finalize: {}", p))?;
+    if format!("{:?}", st.g) != before {
+        return Err("finalization disturbed the generator".into());
+    }
+    let size = st.r.size();
+    let mut exp = expected(&st.r);
+    if let Some(d) = st.declared {
+        exp.warn = d < 4097;
+        if d != size {
+            let e = format!("Err({:?})", GeneratorError::FixedSizeMismatch);
+            exp.fin = e.clone();
+            exp.fin_long = e.clone();
+            exp.fin_raw_short_notrunc = e;
+        }
+    }
+    if obs != exp {
+        return Err(format!("declared {:?}, fed {} bytes: expected {:?} observed {:?}", st.declared, size, exp, obs));
+    }
+    Ok(())
+}
+
+fn chunk_range(len: usize, k: usize) -> (usize, usize) {
+    let a = len * k / 3;
+    let b = len * (k + 1) / 3;
+    (a, b)
+}
+
+fn apply(m: &HintModel, s: &St, a: Act) -> Option<St> {
+    if s.bad.is_some() {
+        return None;
+    }
+    let sc = &m.scripts[s.script];
+    let mut n = s.clone();
+    match a {
+        Act::Declare(k, usize_form) => {
+            let menu = size_menu(sc);
+            let v = menu[k as usize];
+            let before = format!("{:?}", n.g);
+            let res = if usize_form {
+                match usize::try_from(v) {
+                    Ok(u) => guarded(|| n.g.set_fixed_input_size_in_usize(u)),
+                    Err(_) => return None,
+                }
+            } else {
+                guarded(|| n.g.set_fixed_input_size(v))
+            };
+            let exp: Result<(), GeneratorError> = if v > MAX {
+                Err(GeneratorError::FixedSizeTooLarge)
+            } else if s.declared.is_some() && s.declared != Some(v) {
+                Err(GeneratorError::FixedSizeMismatch)
+            } else {
+                Ok(())
+            };
+            match res {
+                Err(p) => n.bad = Some(format!("set_fixed_input_size({}) panicked: {}", v, p)),
+                Ok(r) => {
+                    if r != exp {
+                        n.bad = Some(format!("set_fixed_input_size({}) with {:?} declared returned {:?}, expected {:?}", v, s.declared, r, exp));
+                    } else if r.is_err() {
+                        if format!("{:?}", n.g) != before {
+                            n.bad = Some(format!("refused declaration {} ({:?}) changed the generator", v, r));
+                        } else {
+                            return None; // refused and unchanged: not a transition
+                        }
+                    } else {
+                        n.declared = Some(v);
+                    }
+                }
+            }
+        }
+        Act::Skip => {
+            if s.skipped || s.chunk > 0 || sc.zero_prefix == 0 {
+                return None;
+            }
+            if let Err(p) = guarded(|| n.g.verif_feed_zero_bytes(sc.zero_prefix)) {
+                n.bad = Some(format!("hook panicked: {}", p));
+            }
+            n.r.skip_zeros(sc.zero_prefix);
+            n.skipped = true;
+        }
+        Act::Feed => {
+            if s.chunk >= 3 || (sc.zero_prefix > 0 && !s.skipped) {
+                return None;
+            }
+            let (lo, hi) = chunk_range(sc.bytes.len(), s.chunk);
+            let form = FORMS[(s.chunk + s.script + s.resets) % FORMS.len()];
+            if let Err(p) = guarded(|| feed(&mut n.g, &sc.bytes[lo..hi], form)) {
+                n.bad = Some(format!("update panicked: {}", p));
+            }
+            n.r.feed_all(&sc.bytes[lo..hi]);
+            n.chunk += 1;
+        }
+        Act::Reset(k) => {
+            if s.resets >= m.max_resets || (k as usize) >= m.scripts.len() {
+                return None;
+            }
+            // only reset from states that did something
+            if s.chunk == 0 && s.declared.is_none() && !s.skipped {
+                return None;
+            }
+            if let Err(p) = guarded(|| n.g.reset()) {
+                n.bad = Some(format!("reset panicked: {}", p));
+            }
+            n.r = Ctph::new(0);
+            n.declared = None;
+            n.script = k as usize;
+            n.skipped = false;
+            n.chunk = 0;
+            n.resets += 1;
+        }
+    }
+    m.counter.fetch_add(1, AO::Relaxed);
+    Some(n.rekey())
+}
+
+impl Model for HintModel {
+    type State = St;
+    type Action = Act;
+    fn init_states(&self) -> Vec<St> {
+        self.first_scripts
+            .iter()
+            .map(|&k| {
+                St { g: Generator::new(), r: Ctph::new(0), declared: None, script: k, skipped: false, chunk: 0, resets: 0, bad: None, key: Arc::new(String::new()) }.rekey()
+            })
+            .collect()
+    }
+    fn actions(&self, _s: &St, a: &mut Vec<Act>) {
+        for k in 0..7u8 {
+            a.push(Act::Declare(k, false));
+            if k == 2 || k == 5 {
+                a.push(Act::Declare(k, true));
+            }
+        }
+        a.push(Act::Skip);
+        a.push(Act::Feed);
+        for k in 0..self.scripts.len() as u8 {
+            a.push(Act::Reset(k));
+        }
+    }
+    fn next_state(&self, s: &St, a: Act) -> Option<St> {
+        apply(self, s, a)
+    }
+    fn properties(&self) -> Vec<Property<Self>> {
+        vec![Property::always("finalizations-follow-the-declared-size-model-and-the-reference", |_m, s: &St| judge(s).is_ok())]
+    }
+}
+
+fn act_str(a: &Act) -> String {
+    format!("{:?}", a)
+}
+fn act_parse(s: &str) -> Option<Act> {
+    if s == "Skip" {
+        return Some(Act::Skip);
+    }
+    if s == "Feed" {
+        return Some(Act::Feed);
+    }
+    let (name, rest) = s.split_once('(')?;
+    let rest = rest.trim_end_matches(')');
+    match name {
+        "Reset" => Some(Act::Reset(rest.trim().parse().ok()?)),
+        "Declare" => {
+            let mut it = rest.split(',');
+            let k: u8 = it.next()?.trim().parse().ok()?;
+            let u = it.next()?.trim() == "true";
+            Some(Act::Declare(k, u))
+        }
+        _ => None,
+    }
+}
+
+fn run_path(thorough_scripts: bool, first: usize, path: &[Act]) -> Result<(), String> {
+    let m = HintModel { scripts: scripts(thorough_scripts), max_resets: 8, first_scripts: vec![first], counter: Arc::new(AtomicU64::new(0)) };
+    let mut s = m.init_states().remove(0);
+    judge(&s)?;
+    for (i, a) in path.iter().enumerate() {
+        if let Some(n) = apply(&m, &s, *a) {
+            s = n;
+            judge(&s).map_err(|e| format!("after step {} ({:?}, script '{}'): {}", i + 1, a, m.scripts[s.script].name, e))?;
+        }
+    }
+    Ok(())
+}
+
+pub fn replay(c: &Value) -> Result<(), String> {
+    let first = c["first_script"].as_u64().ok_or("first_script")? as usize;
+    let th = c["thorough_scripts"].as_bool().unwrap_or(false);
+    let path: Vec<Act> = c["path"].as_array().ok_or("path")?.iter().map(|v| v.as_str().and_then(act_parse).ok_or("bad action")).collect::<Result<_, _>>()?;
+    run_path(th, first, &path)
+}
+
+pub fn run(ctx: &Ctx) -> Report {
+    let mut rep = Report::new("model_checking");
+    let thorough = ctx.tier == Tier::Thorough;
+    if let Err(e) = crate::c01::validate_hook(ctx) {
+        eprintln!("mc: hook validation failed (machinery error, not a verdict): {}", e);
+        std::process::exit(6);
+    }
+    let sc = scripts(thorough);
+    let max_resets = ctx.tier.pick(1usize, 2);
+    let mut states = 0u64;
+    let mut transitions = 0u64;
+    let mut traces = 0u64;
+    let mut samples = vec![];
+    let mut exhaustive = true;
+    // one search per first script (keeps counterexamples short and memory small), in parallel
+    struct Out {
+        first: usize,
+        violations: Vec<Violation>,
+        states: u64,
+        transitions: u64,
+        traces: u64,
+        sample: Option<Value>,
+        capped: bool,
+        space: Value,
+        disagree: Option<(u64, u64)>,
+    }
+    let outs: Vec<Out> = {
+        use rayon::prelude::*;
+        (0..sc.len())
+            .into_par_iter()
+            .map(|first| {
+                let counter = Arc::new(AtomicU64::new(0));
+                let model = HintModel { scripts: sc.clone(), max_resets, first_scripts: vec![first], counter: counter.clone() };
+                let sr = explore::run_stateright(model, 2);
+                let sr_trans = counter.load(AO::Relaxed);
+                let case = |path: &[Act]| json!({"first_script": first, "thorough_scripts": thorough, "script_names": sc.iter().map(|s| s.name).collect::<Vec<_>>(), "path": path.iter().map(act_str).collect::<Vec<_>>()});
+                let mut violations = vec![];
+                for (name, path) in &sr.discoveries {
+                    violations.push(Violation {
+                        signature: format!("first='{}' path={:?}", sc[first].name, path),
+                        what: run_path(thorough, first, path).err().unwrap_or_else(|| name.clone()),
+                        case: case(path),
+                    });
+                }
+                // cross-check and recorded paths with the own BFS (single reset level, to bound memory)
+                let mb = HintModel { scripts: sc.clone(), max_resets: max_resets.min(1), first_scripts: vec![first], counter: Arc::new(AtomicU64::new(0)) };
+                let b = explore::bfs(&mb, ctx.tier.pick(300_000, 3_000_000), 40);
+                let mut traces = 0u64;
+                let mut sample = None;
+                let mut disagree = None;
+                if let Some((name, path)) = &b.violation {
+                    if sr.discoveries.is_empty() {
+                        violations.push(Violation {
+                            signature: format!("first='{}' path={:?}", sc[first].name, path),
+                            what: run_path(thorough, first, path).err().unwrap_or_else(|| name.clone()),
+                            case: case(path),
+                        });
+                    }
+                } else {
+                    if max_resets == 1 && sr.discoveries.is_empty() && sr.unique != b.states {
+                        disagree = Some((sr.unique, b.states));
+                    }
+                    for p in &b.sample_paths {
+                        traces += 1;
+                        if let Err(e) = run_path(thorough, first, p) {
+                            violations.push(Violation { signature: format!("trace first='{}' {:?}", sc[first].name, p), what: e, case: case(p) });
+                        }
+                    }
+                    if let Some(p) = b.sample_paths.first() {
+                        sample = Some(case(p));
+                    }
+                }
+                Out {
+                    first,
+                    violations,
+                    states: sr.unique,
+                    transitions: sr_trans,
+                    traces,
+                    sample,
+                    capped: b.capped,
+                    space: json!({"script": sc[first].name, "states": sr.unique, "transitions": sr_trans, "max_depth": sr.max_depth,
+                                  "crosscheck_states": b.states, "crosscheck_transitions": b.transitions, "crosscheck_capped": b.capped}),
+                    disagree,
+                }
+            })
+            .collect()
+    };
+    for o in outs {
+        if let Some((a, b)) = o.disagree {
+            eprintln!("mc: explorers disagree on C12 (first script {}): {} vs {}", o.first, a, b);
+            std::process::exit(5);
+        }
+        for v in o.violations {
+            rep.violation(v);
+        }
+        states += o.states;
+        transitions += o.transitions;
+        traces += o.traces;
+        if let Some(s) = o.sample {
+            samples.push(s);
+        }
+        if o.capped {
+            exhaustive = false;
+        }
+        rep.set(&format!("space_first_script_{}", o.first), o.space);
+    }
+    rep.set("states", states);
+    rep.set("transitions", transitions);
+    rep.set("traces_validated_against_impl", traces);
+    rep.set("samples", Value::Array(samples));
+    rep.set("max_resets", max_resets);
+    rep.set("exhaustive", exhaustive);
+    rep.set(
+        "rule",
+        "histories over: declare a size from {0, total-1, total, total+1, 192 GiB, 192 GiB+1, u64::MAX} (u64 and usize forms) at any point; in-place zero skip to the script's zero prefix (hook H1); feed the next third of the script (update forms rotate); reset() and start any script; scripts: Hello World, W2^70 (elimination), 96 GiB-448 + W30^64 + 01 (last-piece hash), 192 GiB-448 + W30^64 (exactly the limit), a border crossing (thorough: three more).  In every state finalize / finalize_without_truncation / finalize_raw / input_size / small-size warning are compared with the declarative reference under the declared-size model; refused declarations must return their specific error and leave the Debug rendering unchanged; finalization must not disturb the generator.  After reset the reference is fresh.",
+    );
+    rep.assume("sizes of 96 / 192 GiB are reached through hook H1's in-place zero skip (validated at start-up)");
+    rep
+}
